@@ -236,7 +236,7 @@ func apiLoc(l gts.Location) gts.Location {
 func edgeRecord(o *Out, gb *seqio.GenBank, i int) string {
 	r := o.Rng
 	f := &gb.Fields
-	switch i % 16 {
+	switch i % 18 {
 	case 0:
 		f.Source.Species = "S" + rstr(r, alWord, 20, 30) + " " + rstr(r, alWord, 20, 30) + " " + rstr(r, alWord, 20, 40)
 		return "long-species"
@@ -296,6 +296,16 @@ func edgeRecord(o *Out, gb *seqio.GenBank, i int) string {
 	case 14:
 		gb.Table[0].Props.Add("note", "line one\n/looks_like_a_qualifier\nline three")
 		return "value-slash-line"
+	case 15:
+		// a backslash inside a value is data; at the very end of the value it
+		// meets the closing quote (known finding K13)
+		gb.Table[0].Props.Add("note", "path C:\\temp\\x and a \\n inside")
+		gb.Table[len(gb.Table)-1].Props.Add("note", "even number at the end\\\\")
+		return "value-backslash-inside"
+	case 16:
+		gb.Table[0].Props.Add("note", "ends with a backslash\\")
+		gb.Table[0].Props.Add("gene", "after")
+		return "value-backslash-last"
 	default:
 		f.DBLink.Set("Empty"+itoa(i), "")
 		return "dblink-empty-value"
@@ -405,11 +415,14 @@ func writeGB(seq gts.Sequence) (text string, ok bool) {
 // c01Known classifies an oracle failure as one of the listed known findings,
 // by what the written record contains and which observable differs.
 func c01Known(o *Out, kind string, gb seqio.GenBank, field string) bool {
-	hasQuote := false
+	hasQuote, endsBackslash := false, false
 	for _, f := range gb.Table {
 		for _, it := range f.Props.Items() {
 			if strings.Contains(it.Value, "\"") {
 				hasQuote = true
+			}
+			if oddTrailingBackslashes(it.Value) {
+				endsBackslash = true
 			}
 		}
 	}
@@ -418,7 +431,7 @@ func c01Known(o *Out, kind string, gb seqio.GenBank, field string) bool {
 	speciesWraps := !strings.Contains(species, "\n") && wrap.Space(species, 67) != species
 	// attribute the failure to a listed cause only if the record passes once
 	// exactly that cause is taken out of it
-	if nameWraps || speciesWraps || hasQuote {
+	if nameWraps || speciesWraps || hasQuote || endsBackslash {
 		cp := gb
 		cp.Fields.Source.Name = strings.ReplaceAll(name, " ", "_")
 		cp.Fields.Source.Species = strings.ReplaceAll(species, " ", "_")
@@ -426,7 +439,11 @@ func c01Known(o *Out, kind string, gb seqio.GenBank, field string) bool {
 		for _, f := range gb.Table {
 			g := gts.Feature{Key: f.Key, Loc: f.Loc}
 			for _, it := range f.Props.Items() {
-				g.Props.Add(it.Key, strings.ReplaceAll(it.Value, "\"", "'"))
+				v := strings.ReplaceAll(it.Value, "\"", "'")
+				if oddTrailingBackslashes(v) {
+					v += "/"
+				}
+				g.Props.Add(it.Key, v)
 			}
 			cp.Table = append(cp.Table, g)
 		}
@@ -479,8 +496,21 @@ func c01Known(o *Out, kind string, gb seqio.GenBank, field string) bool {
 	case hasQuote && (kind == "fixed-point" || (kind == "fidelity" && field == "features")):
 		o.KnownFinding("K10")
 		return true
+	case endsBackslash && (kind == "fixed-point" || kind == "closure" || (kind == "fidelity" && field == "features")):
+		o.KnownFinding("K13")
+		return true
 	}
 	return false
+}
+
+// a value that ends in an odd number of backslashes: the reader (pars.Quoted)
+// takes the last one as an escape of the closing quote
+func oddTrailingBackslashes(v string) bool {
+	n := 0
+	for n < len(v) && v[len(v)-1-n] == '\\' {
+		n++
+	}
+	return n%2 == 1
 }
 
 // renormLoc rebuilds a location through Join/Order/Complement, as the parser does.
